@@ -43,6 +43,52 @@ theorem transaction_commits_iff_ok (k : Conn) (i m : Nat) :
     commitsOn (transact k i m).1 = commitsOn k + (if (transact k i m).2 = .ok then 1 else 0) :=
   commitsOn_transact k i m
 
+/-- **A failed command ends the connection.** A transaction that does not report success — the peer gone, the
+    recipient refused (550 or 450), the DATA command refused (451) — leaves its connection closed and marked broken: it
+    is never half-way through a transaction when somebody else could see it. -/
+theorem failed_transaction_closes (k : Conn) (i m : Nat) (h : (transact k i m).2 ≠ .ok) :
+    (transact k i m).1.closed = true ∧ ((transact k i m).1.broken = true ∨ k.closed = true) := by
+  have key : ∀ k' : Conn, k'.closed = k.closed →
+      (abortConn k').closed = true ∧ ((abortConn k').broken = true ∨ k.closed = true) := by
+    intro k' hk; have := abortConn_closed k'; rw [hk] at this; exact this
+  revert h
+  unfold transact
+  by_cases h3 : k.peerAlive
+  · simp only [h3, Bool.not_true, Bool.false_eq_true, if_false]
+    split
+    · intro _; exact key _ (by simp [say])
+    · split
+      · intro _; exact key _ (by simp [say])
+      · split
+        · intro _; exact key _ (by simp [say])
+        · split <;> (intro h; exact absurd rfl h)
+  · simp only [h3]
+    intro _
+    simpa using key k rfl
+
+/-- non-vacuity: the DATA command refused with 451 — the send fails, the peer has seen QUIT and the close, nothing else -/
+example :
+    let k : Conn := { tempData := some 1, hist := [.ehlo] }
+    (transact k 0 0).2 = .trans ∧ (transact k 0 0).1.closed = true ∧
+      (transact k 0 0).1.hist = [.eof, .quit, .dataTemp, .rcpt, .mail 0, .ehlo] := by
+  decide
+
+/-- … and a broken connection is not handed back: after a send on a connection that came out broken, the sender holds
+    nothing (blocking pool) and the recycle task it spawns carries no connection (tokio pool). -/
+theorem broken_connection_not_returned (s : St) (i c : Nat) (r : Res) (h : (getConn s c).broken = true) :
+    (finishSend s i c r).idle = s.idle ∧
+    (s.isAsync = true → (finishSend s i c r).recyclers = s.recyclers ++ [none]) ∧
+    (s.isAsync = false → (finishSend s i c r).recyclers = s.recyclers ∧
+      ∀ t0, s.senders[i]? = some t0 → ∃ t, (finishSend s i c r).senders[i]? = some t ∧ t.holding = t0.holding) := by
+  unfold finishSend
+  simp only [h, if_true]
+  by_cases ha : s.isAsync
+  · simp [ha, updSender]
+  · simp only [ha, Bool.false_eq_true, if_false]
+    refine ⟨by simp [updSender], by simp, fun _ => ⟨by simp [updSender], ?_⟩⟩
+    intro t0 ht
+    exact ⟨{ t0 with next := t0.next + 1, results := r :: t0.results }, by simp [updSender, List.getElem?_modify_eq, ht], rfl⟩
+
 /-- Every connection id held anywhere (parked, in use, being returned, held by the worker) is the
     id of a connection that was opened: no transition invents or loses track of a connection. -/
 theorem ids_valid (isAsync : Bool) (maxSize minIdle sends nSenders : Nat)
